@@ -184,6 +184,20 @@ def op (st : St) (ws : List String) : St × String :=
   | ["F"] =>
     let offs := (st.touched.reverse.eraseDups)
     (st, "mods " ++ ",".intercalate (offs.map (fun a => s!"{toHex a}={hex2 (st.img a)}")))
+  -- the caller prepares the image itself (header fields etc.): one byte / a hashed run; not a write through a writer
+  | ["P", a, v] =>
+    match hexNat? a, hexNat? v with
+    | some a, some v => ({ st with img := overwrite st.img a [UInt8.ofNat v] }, "ok")
+    | _, _ => (st, "bad-op")
+  | ["Q", a, n, vs] =>
+    match hexNat? a, hexNat? n, hexNat? vs with
+    | some a, some n, some vs =>
+      ({ st with img := overwrite st.img a ((List.range n).map (fun j => hash8 vs.toUInt64 j.toUInt32)) }, "ok")
+    | _, _, _ => (st, "bad-op")
+  -- the ROM object is (re)built through NewROM / its parsed Header is edited by the caller: the readers and writers of the
+  -- model do not depend on the parsed header at all
+  | ["N"] => (st, "ok")
+  | ["H", _, _] => (st, "ok")
   | _ => (st, "bad-op")
 
 def run (size seed : Nat) (ops : List String) : String :=
